@@ -1058,6 +1058,14 @@ def _inline_adjacent_single_use(stmts, uses):
                 changed += 1
                 i += 1
                 continue
+        if (isinstance(s, ast.Assign) and len(s.targets) == 1 and isinstance(s.targets[0], ast.Name) and isinstance(nxt, ast.For)
+                and uses.get(s.targets[0].id) == (1, 1) and isinstance(nxt.iter, ast.Name) and nxt.iter.id == s.targets[0].id
+                and not _HOISTED_CONTAINER.search(s.targets[0].id)):
+            # `it = <expr>; for x in it:` -- the iterable is the next thing evaluated, once
+            nxt.iter = copy.deepcopy(s.value)
+            changed += 1
+            i += 1
+            continue
         if (isinstance(s, ast.Assign) and len(s.targets) == 1 and isinstance(s.targets[0], ast.Name) and isinstance(nxt, ast.If)
                 and uses.get(s.targets[0].id) == (1, 1)):
             # `t = <expr>; if <test reading t once>:`  -- the test is the next thing evaluated
@@ -1318,6 +1326,22 @@ def _static_expand(fn, consts):
         """`if T: continue; rest` at the top level of a loop body -> `if not T: rest` (None if a break/continue remains elsewhere)."""
         out = []
         for i_, b in enumerate(body):
+            if isinstance(b, ast.Try) and not b.finalbody and b.handlers and all(len(h.body) == 1 and isinstance(h.body[0], ast.Continue) for h in b.handlers) \
+                    and not any(isinstance(x, (ast.Break, ast.Continue)) for st_ in b.body + b.orelse for x in ast.walk(st_)):
+                # `try: A  except E: continue` + rest  ->  `try: A  except E: pass  else: rest` (the else clause runs exactly when no
+                # handler did)
+                rest = strip_top_continue(body[i_ + 1:])
+                if rest is None:
+                    return None
+                nb = copy.copy(b)
+                nb.handlers = []
+                for h in b.handlers:
+                    h2 = copy.copy(h)
+                    h2.body = [ast.copy_location(ast.Pass(), h)]
+                    nb.handlers.append(h2)
+                nb.orelse = list(b.orelse) + rest
+                out.append(nb)
+                return out
             if isinstance(b, ast.If) and len(b.body) == 1 and isinstance(b.body[0], ast.Continue) and not b.orelse:
                 rest = strip_top_continue(body[i_ + 1:])
                 if rest is None:
@@ -1380,14 +1404,26 @@ def _static_expand(fn, consts):
                         pass
                     following = stmts[stmts.index(s_) + 1:] if s_ in stmts else []
                     later_use = any(isinstance(x, ast.Name) and x.id in names for st_ in following for x in ast.walk(st_))
-                    if not later_use:
+                    # (read after the loop, the loop variables hold the matching row -- or the last row when none matched: with the
+                    # break form that is spelled out as assignments in every arm)
+                    bind_after = later_use and isinstance(s_.body[0].body[-1], ast.Break)
+                    if not later_use or bind_after:
                         node = None
                         orelse = list(s_.orelse)
+
+                        def binds(r_):
+                            vals_ = [r_] if isinstance(tg, ast.Name) else list(r_.elts)
+                            return [ast.copy_location(ast.Assign(targets=[ast.Name(id=nm_, ctx=ast.Store())], value=copy.deepcopy(v_)), s_)
+                                    for nm_, v_ in zip(names, vals_)]
+                        if bind_after:
+                            orelse = binds(srows[-1]) + orelse
                         for r in reversed(srows):
                             vals = [r] if isinstance(tg, ast.Name) else list(r.elts)
                             inner = copy.deepcopy(s_.body[0])
                             if isinstance(inner.body[-1], ast.Break):
                                 inner.body = inner.body[:-1] or [ast.copy_location(ast.Pass(), s_)]
+                            if bind_after:
+                                inner.body = binds(r) + [b_ for b_ in inner.body if not isinstance(b_, ast.Pass)]
                             # (an arm that ends in `return` keeps it: what follows the loop runs only when no row matched, as before)
                             for nm, val in zip(names, vals):
                                 inner = _ConstSubst(nm, val).visit(inner)
@@ -1398,6 +1434,25 @@ def _static_expand(fn, consts):
                         out.append(node)
                         changed[0] += 1
                         continue
+            if isinstance(s_, ast.For) and not s_.orelse and isinstance(s_.iter, ast.Call) and isinstance(s_.iter.func, ast.Name) \
+                    and s_.iter.func.id == "enumerate" and len(s_.iter.args) == 1 and not s_.iter.keywords \
+                    and isinstance(s_.target, (ast.Tuple, ast.List)) and len(s_.target.elts) == 2 and isinstance(s_.target.elts[0], ast.Name):
+                # `for i, (a, b) in enumerate(TABLE)` / `for i, row in enumerate(TABLE)`: rows prefixed with their index
+                inner_it = s_.iter.args[0]
+                base = local_tables.get(inner_it.id) if isinstance(inner_it, ast.Name) else None
+                if base is None and isinstance(inner_it, ast.Name) and inner_it.id in _MODULE_ROW_TABLES and inner_it.id not in stored_names:
+                    base = _MODULE_ROW_TABLES[inner_it.id]
+                if base is None and isinstance(inner_it, ast.Name) and inner_it.id in consts and inner_it.id not in stored_names:
+                    base = consts[inner_it.id]
+                t1 = s_.target.elts[1]
+                if base is not None and (isinstance(t1, ast.Name) or (isinstance(t1, (ast.Tuple, ast.List)) and all(isinstance(e_, ast.Name) for e_ in t1.elts)
+                                                                      and all(isinstance(r_, ast.Tuple) and len(r_.elts) == len(t1.elts) for r_ in base))):
+                    flat_t = [s_.target.elts[0]] + ([t1] if isinstance(t1, ast.Name) else list(t1.elts))
+                    new_rows = [ast.Tuple(elts=[ast.Constant(value=i_)] + ([r_] if isinstance(t1, ast.Name) else list(r_.elts)), ctx=ast.Load())
+                                for i_, r_ in enumerate(base)]
+                    s_ = ast.copy_location(ast.For(target=ast.Tuple(elts=flat_t, ctx=ast.Store()), iter=ast.Tuple(elts=new_rows, ctx=ast.Load()),
+                                                   body=s_.body, orelse=[], type_comment=None), s_)
+                    ast.fix_missing_locations(s_)
             if isinstance(s_, ast.For) and not s_.orelse:
                 rows_ = local_tables.get(s_.iter.id) if isinstance(s_.iter, ast.Name) else inline_rows(s_)
                 if rows_ is None and isinstance(s_.iter, ast.Name) and s_.iter.id in _MODULE_ROW_TABLES and s_.iter.id not in stored_names:
@@ -1427,7 +1482,8 @@ def _static_expand(fn, consts):
                             if isinstance(b_, ast.Assign) and len(b_.targets) == 1 and isinstance(b_.targets[0], ast.Name) and b_.targets[0].id == x \
                                     and not mentions(b_.value, x):
                                 return True
-                            if isinstance(b_, ast.Try) and not any(mentions(h_, x) for h_ in b_.handlers) and not any(mentions(z, x) for z in b_.orelse + b_.finalbody) \
+                            # (the else clause of a try runs only after its body completed: a name the body defines is defined there)
+                            if isinstance(b_, ast.Try) and not any(mentions(h_, x) for h_ in b_.handlers) and not any(mentions(z, x) for z in b_.finalbody) \
                                     and not any(mentions(z, x) for z in block[block.index(b_) + 1:]):
                                 return dom(b_.body, x)
                             # used inside one arm of an `if` only, and defined there before it is used
@@ -1462,7 +1518,9 @@ def _static_expand(fn, consts):
         return out
     local_tables_ref[0] = local_tables
     if local_tables or any(isinstance(x, ast.For) and (isinstance(x.iter, (ast.Tuple, ast.List)) or
-                                                       (isinstance(x.iter, ast.Name) and x.iter.id in _MODULE_ROW_TABLES)) for x in ast.walk(fn)):
+                                                       (isinstance(x.iter, ast.Name) and x.iter.id in _MODULE_ROW_TABLES) or
+                                                       (isinstance(x.iter, ast.Call) and isinstance(x.iter.func, ast.Name) and x.iter.func.id == "enumerate"))
+                           for x in ast.walk(fn)):
         fn.body = unroll_table_loops(fn.body)
     fn.body = unroll_stmts(fn.body)
     e = E()
@@ -1866,11 +1924,40 @@ def _merge_dict_item_stores(stmts):
         i += 1
 
 
+def _pure_simple(e, depth=0):
+    """name / constant / attribute chain / arithmetic / int()-style conversion of such: evaluating it has no effect"""
+    if depth > 6:
+        return False
+    if isinstance(e, (ast.Name, ast.Constant)):
+        return True
+    if isinstance(e, ast.Attribute):
+        return _pure_simple(e.value, depth + 1)
+    if isinstance(e, ast.BinOp):
+        return _pure_simple(e.left, depth + 1) and _pure_simple(e.right, depth + 1)
+    if isinstance(e, ast.UnaryOp):
+        return _pure_simple(e.operand, depth + 1)
+    if isinstance(e, (ast.Tuple, ast.List)):
+        return all(_pure_simple(x, depth + 1) for x in e.elts)
+    if isinstance(e, ast.Call) and not e.keywords and len(e.args) == 1 and (_dotted_name(e.func) or "").split(".")[-1] in (
+            "int", "float", "len", "bool", "uint8", "uint16", "uint32", "uint64", "int64", "float64"):
+        return _pure_simple(e.args[0], depth + 1)
+    return False
+
+
 class _FoldDisplays(ast.NodeTransformer):
     """Spelled-out container constructions are read as the displays they equal:
     `dict(a=x, b=y)` -> `{"a": x, "b": y}`;  `tuple(f(i) for i in range(3))` -> `(f(0), f(1), f(2))`;  `(a, b) + (c,)` -> `(a, b, c)`;
     `g(*tuple(xs))` / `g(*list(xs))` -> `g(*xs)`.  (Builtins `dict`, `tuple`, `list`, `range` are assumed not to be shadowed; the
     package does not shadow them.)"""
+
+    def visit_Subscript(self, n):
+        self.generic_visit(n)
+        # `(a, b, c)[1]` -> `b` when every element is a name / constant / attribute chain (no evaluation is dropped that could matter)
+        if isinstance(n.ctx, ast.Load) and isinstance(n.value, (ast.Tuple, ast.List)) and isinstance(n.slice, ast.Constant) \
+                and isinstance(n.slice.value, int) and not isinstance(n.slice.value, bool) and -len(n.value.elts) <= n.slice.value < len(n.value.elts) \
+                and all(_pure_simple(e) for e in n.value.elts):
+            return ast.copy_location(copy.deepcopy(n.value.elts[n.slice.value]), n)
+        return n
 
     def visit_Call(self, c):
         self.generic_visit(c)
@@ -2137,6 +2224,13 @@ class _PruneConstantIfs(ast.NodeTransformer):
         if isinstance(t, ast.Compare) and len(t.ops) == 1 and isinstance(t.ops[0], (ast.Is, ast.IsNot)) \
                 and isinstance(t.comparators[0], ast.Constant) and t.comparators[0].value is None \
                 and isinstance(t.left, ast.Name) and t.left.id in _MODULE_DEFS:
+            node.test = ast.copy_location(ast.Constant(value=isinstance(t.ops[0], ast.IsNot)), t)
+        # `(a, b) is None` / `[..] is not None`: a display is a fresh object, never None (its elements are still evaluated: only
+        # displays of names and constants are folded)
+        t = node.test
+        if isinstance(t, ast.Compare) and len(t.ops) == 1 and isinstance(t.ops[0], (ast.Is, ast.IsNot)) \
+                and isinstance(t.comparators[0], ast.Constant) and t.comparators[0].value is None \
+                and isinstance(t.left, (ast.Tuple, ast.List)) and _pure_simple(t.left):
             node.test = ast.copy_location(ast.Constant(value=isinstance(t.ops[0], ast.IsNot)), t)
         if isinstance(node.test, ast.Constant) and isinstance(node.test.value, (bool, int)) and not isinstance(node.test.value, str):
             arm = node.body if node.test.value else node.orelse
@@ -2683,6 +2777,10 @@ def _drop_dead_pure_stores(fn):
             return simple_pure(v.value)
         if isinstance(v, (ast.Tuple, ast.List)):
             return all(simple_pure(e) for e in v.elts)
+        if isinstance(v, ast.Dict):
+            return all(k is not None and simple_pure(k) for k in v.keys) and all(simple_pure(e) for e in v.values)
+        if isinstance(v, ast.Lambda):
+            return True          # creating a function object has no effect
         if isinstance(v, ast.Call) and isinstance(v.func, ast.Name) and v.func.id in ("int", "float", "len", "bool") and len(v.args) == 1 and not v.keywords:
             return simple_pure(v.args[0])
         if isinstance(v, ast.BinOp):
@@ -2995,6 +3093,294 @@ def _fold_flag_chains(fn):
     if changed[0]:
         ast.fix_missing_locations(fn)
     return changed[0]
+
+
+def _expand_filtered_tables(fn):
+    """`T = [(t, f, a, []) for t, f, a in ((..), (..), (..)) if a]` -- a local list (bound once) built by a comprehension over a
+    literal table of stable rows, keeping the rows whose condition (a truth test of the target names) holds, each kept row getting a
+    fresh empty container -- whose only uses are `for X in T:` loops without `break`: the comprehension goes away, every row's
+    container becomes a local of its own (created unconditionally: an empty list that is never used changes nothing), and each loop
+    over T is written out as one guarded copy of its body per row, `if <cond(row)>: BODY(row)`.  The condition is re-evaluated at
+    each loop; it reads only names the function never rebinds and (option-style) objects it never writes through, so it decides
+    alike every time."""
+    stores = {}
+    for x in ast.walk(fn):
+        if isinstance(x, ast.Name) and isinstance(x.ctx, (ast.Store, ast.Del)):
+            stores[x.id] = stores.get(x.id, 0) + 1
+    written_through = set()
+    for x in ast.walk(fn):
+        if isinstance(x, ast.Subscript) and isinstance(x.ctx, (ast.Store, ast.Del)) and isinstance(x.value, ast.Name):
+            written_through.add(x.value.id)
+        if isinstance(x, ast.Call) and isinstance(x.func, ast.Attribute) and isinstance(x.func.value, ast.Name) and x.func.attr in (
+                "append", "extend", "insert", "pop", "clear", "update", "setdefault", "remove", "popitem", "add", "discard"):
+            written_through.add(x.func.value.id)
+    params = {a.arg for a in fn.args.args + fn.args.kwonlyargs}
+
+    def fresh(e):
+        if isinstance(e, (ast.List, ast.Set)) and not e.elts:
+            return True
+        if isinstance(e, ast.Dict) and not e.keys:
+            return True
+        return isinstance(e, ast.Call) and isinstance(e.func, ast.Name) and e.func.id in ("list", "dict", "set") and not e.args and not e.keywords
+
+    def stable_cell(e):
+        if isinstance(e, ast.Constant):
+            return True
+        if isinstance(e, ast.Name):
+            return e.id not in stores and e.id not in written_through
+        return False
+
+    def truth_test(c, names):
+        # a truth test built from the target names: `a`, `not a`, `a is not None`, and/or of those
+        if isinstance(c, ast.Name):
+            return c.id in names
+        if isinstance(c, ast.UnaryOp) and isinstance(c.op, ast.Not):
+            return truth_test(c.operand, names)
+        if isinstance(c, ast.BoolOp):
+            return all(truth_test(v, names) for v in c.values)
+        if isinstance(c, ast.Compare) and len(c.ops) == 1 and isinstance(c.ops[0], (ast.Is, ast.IsNot)) and isinstance(c.left, ast.Name) \
+                and c.left.id in names and isinstance(c.comparators[0], ast.Constant) and c.comparators[0].value is None:
+            return True
+        return False
+    tables = {}
+    for st in fn.body:
+        if isinstance(st, ast.Assign) and len(st.targets) == 1 and isinstance(st.targets[0], ast.Name) and stores.get(st.targets[0].id) == 1 \
+                and isinstance(st.value, ast.ListComp) and len(st.value.generators) == 1:
+            g = st.value.generators[0]
+            tg = g.target
+            if g.is_async or not isinstance(g.iter, (ast.Tuple, ast.List)) or not (1 <= len(g.iter.elts) <= 8) or len(g.ifs) != 1:
+                continue
+            if not (isinstance(tg, (ast.Tuple, ast.List)) and all(isinstance(e, ast.Name) for e in tg.elts)):
+                continue
+            names = [e.id for e in tg.elts]
+            rows = g.iter.elts
+            if not all(isinstance(r, ast.Tuple) and len(r.elts) == len(names) and all(stable_cell(e) for e in r.elts) for r in rows):
+                continue
+            elt = st.value.elt
+            if not (isinstance(elt, ast.Tuple) and all((isinstance(e, ast.Name) and e.id in names) or isinstance(e, ast.Constant) or fresh(e) for e in elt.elts)):
+                continue
+            if not truth_test(g.ifs[0], set(names)):
+                continue
+            tables[st.targets[0].id] = (st, names, rows, elt, g.ifs[0])
+    if not tables:
+        return 0
+    # every use of the table is the iterable of a `for` without break / else
+    for tname in list(tables):
+        uses = [x for x in ast.walk(fn) if isinstance(x, ast.Name) and x.id == tname and isinstance(x.ctx, ast.Load)]
+        loops = [l for l in ast.walk(fn) if isinstance(l, ast.For) and isinstance(l.iter, ast.Name) and l.iter.id == tname]
+        ok = len(uses) == len(loops) and loops and all(not l.orelse and not any(isinstance(b, ast.Break) for b in ast.walk(l)) for l in loops)
+        # targets of those loops: plain names, one per element of the row
+        ok = ok and all(isinstance(l.target, (ast.Tuple, ast.List)) and len(l.target.elts) == len(tables[tname][3].elts)
+                        and all(isinstance(e, ast.Name) for e in l.target.elts) for l in loops)
+        if not ok:
+            del tables[tname]
+    if not tables:
+        return 0
+    n = [0]
+
+    def subst(node, mapping):
+        class S(ast.NodeTransformer):
+            def visit_Name(self, x):
+                if isinstance(x.ctx, ast.Load) and x.id in mapping:
+                    return ast.copy_location(copy.deepcopy(mapping[x.id]), x)
+                return x
+        return S().visit(copy.deepcopy(node))
+
+    def strip_continue(body):
+        out = []
+        for i_, b in enumerate(body):
+            if isinstance(b, ast.If) and len(b.body) == 1 and isinstance(b.body[0], ast.Continue) and not b.orelse:
+                rest = strip_continue(body[i_ + 1:])
+                if rest is None:
+                    return None
+                if rest:
+                    out.append(ast.copy_location(ast.If(test=ast.UnaryOp(op=ast.Not(), operand=b.test), body=rest, orelse=[]), b))
+                return out
+            if any(isinstance(x, ast.Continue) for x in ast.walk(b) if not isinstance(b, (ast.For, ast.While))):
+                return None
+            out.append(b)
+        return out
+
+    def block(stmts):
+        out = []
+        for st in stmts:
+            if isinstance(st, (ast.FunctionDef, ast.AsyncFunctionDef, ast.ClassDef)):
+                out.append(st)
+                continue
+            for fld in ("body", "orelse", "finalbody"):
+                blk = getattr(st, fld, None)
+                if isinstance(blk, list):
+                    setattr(st, fld, block(blk))
+            if isinstance(st, ast.Try):
+                for h in st.handlers:
+                    h.body = block(h.body)
+            if isinstance(st, ast.Assign) and len(st.targets) == 1 and isinstance(st.targets[0], ast.Name) and st.targets[0].id in tables \
+                    and tables[st.targets[0].id][0] is st:
+                tname = st.targets[0].id
+                _, names, rows, elt, cond = tables[tname]
+                for i, r in enumerate(rows):
+                    for j, e in enumerate(elt.elts):
+                        if fresh(e):
+                            out.append(ast.copy_location(ast.Assign(targets=[ast.Name(id="%s__r%dc%d" % (tname, i, j), ctx=ast.Store())], value=copy.deepcopy(e)), st))
+                n[0] += 1
+                continue
+            if isinstance(st, ast.For) and isinstance(st.iter, ast.Name) and st.iter.id in tables:
+                tname = st.iter.id
+                _, names, rows, elt, cond = tables[tname]
+                body = strip_continue(st.body)
+                if body is not None:
+                    for i, r in enumerate(rows):
+                        rowmap = dict(zip(names, r.elts))
+                        cells = []
+                        for j, e in enumerate(elt.elts):
+                            cells.append(ast.Name(id="%s__r%dc%d" % (tname, i, j), ctx=ast.Load()) if fresh(e) else
+                                         copy.deepcopy(rowmap[e.id]) if isinstance(e, ast.Name) else copy.deepcopy(e))
+                        tmap = {t.id: c for t, c in zip(st.target.elts, cells)}
+                        guarded = [subst(b, tmap) for b in body]
+                        out.append(ast.copy_location(ast.If(test=subst(cond, rowmap), body=guarded or [ast.copy_location(ast.Pass(), st)], orelse=[]), st))
+                    n[0] += 1
+                    continue
+            out.append(st)
+        return out
+    # the loop targets must not be rebound inside the loop bodies (they are substituted)
+    for tname in list(tables):
+        for l in [l for l in ast.walk(fn) if isinstance(l, ast.For) and isinstance(l.iter, ast.Name) and l.iter.id == tname]:
+            tn = {e.id for e in l.target.elts}
+            if any(isinstance(x, ast.Name) and x.id in tn and isinstance(x.ctx, (ast.Store, ast.Del)) for b in l.body for x in ast.walk(b)):
+                tables.pop(tname, None)
+    if not tables:
+        return 0
+    fn.body = block(fn.body)
+    if n[0]:
+        ast.fix_missing_locations(fn)
+    return n[0]
+
+
+def _fold_local_const_dicts(fn):
+    """A local `d = {"a": e1, "b": e2}` (bound once; constant string keys; values without effects) that is only ever read through
+    `d["a"]`, `d.__getitem__("a")`, `d.get("a")` with a constant key, or `sum(d.values())`: each read becomes the value expression
+    (the sum becomes `0 + e1 + e2`).  The values read names the function may rebind only if it does not (checked)."""
+    stores = {}
+    for x in ast.walk(fn):
+        if isinstance(x, ast.Name) and isinstance(x.ctx, (ast.Store, ast.Del)):
+            stores[x.id] = stores.get(x.id, 0) + 1
+    params = {a.arg for a in fn.args.args + fn.args.kwonlyargs}
+    parents = {}
+    for p_ in ast.walk(fn):
+        for c_ in ast.iter_child_nodes(p_):
+            parents[id(c_)] = p_
+    tables = {}
+    for n in ast.walk(fn):
+        if isinstance(n, ast.Assign) and len(n.targets) == 1 and isinstance(n.targets[0], ast.Name) and stores.get(n.targets[0].id) == 1 \
+                and n.targets[0].id not in params and isinstance(n.value, ast.Dict) and n.value.keys \
+                and all(isinstance(k, ast.Constant) and isinstance(k.value, str) for k in n.value.keys) \
+                and all(_pure_simple(v) and all(stores.get(y.id, 0) == 0 for y in ast.walk(v) if isinstance(y, ast.Name)) for v in n.value.values):
+            tables[n.targets[0].id] = n
+    count = 0
+    for name, asg in list(tables.items()):
+        d = asg.value
+        byk = {k.value: v for k, v in zip(d.keys, d.values)}
+        uses = [x for x in ast.walk(fn) if isinstance(x, ast.Name) and x.id == name and isinstance(x.ctx, ast.Load)]
+        plan = []
+        ok = True
+        for u in uses:
+            par = parents.get(id(u))
+            gp = parents.get(id(par)) if par is not None else None
+            if isinstance(par, ast.Subscript) and par.value is u and isinstance(par.ctx, ast.Load) and isinstance(par.slice, ast.Constant) and par.slice.value in byk:
+                plan.append((par, byk[par.slice.value]))
+            elif isinstance(par, ast.Attribute) and par.attr in ("__getitem__", "get") and isinstance(gp, ast.Call) and gp.func is par \
+                    and len(gp.args) == 1 and not gp.keywords and isinstance(gp.args[0], ast.Constant) and gp.args[0].value in byk:
+                plan.append((gp, byk[gp.args[0].value]))
+            elif isinstance(par, ast.Attribute) and par.attr == "values" and isinstance(gp, ast.Call) and gp.func is par and not gp.args \
+                    and isinstance(parents.get(id(gp)), ast.Call) and isinstance(parents[id(gp)].func, ast.Name) and parents[id(gp)].func.id == "sum" \
+                    and len(parents[id(gp)].args) == 1 and not parents[id(gp)].keywords:
+                tot = ast.Constant(value=0)
+                for v in d.values:
+                    tot = ast.BinOp(left=tot, op=ast.Add(), right=copy.deepcopy(v))
+                plan.append((parents[id(gp)], tot))
+            else:
+                ok = False
+                break
+        if not ok or not plan:
+            continue
+        repl = {id(old_): new_ for old_, new_ in plan}
+
+        class R(ast.NodeTransformer):
+            def generic_visit(self, node):
+                node = super().generic_visit(node)
+                return node
+
+            def visit(self, node):
+                if id(node) in repl:
+                    return ast.copy_location(copy.deepcopy(repl[id(node)]), node)
+                return super().visit(node)
+        R().visit(fn)
+        count += 1
+    if count:
+        ast.fix_missing_locations(fn)
+    return count
+
+
+def _beta_reduce_local_lambdas(fn):
+    """`f = lambda a, b: BODY` bound once to a local and only ever *called* with as many positional, effect-free arguments: every call
+    becomes BODY with the arguments in place of the parameters.  The lambda's free names must not be rebound anywhere in the function
+    (they are read at call time), and BODY contains no lambda or comprehension of its own."""
+    stores = {}
+    for x in ast.walk(fn):
+        if isinstance(x, ast.Name) and isinstance(x.ctx, (ast.Store, ast.Del)):
+            stores[x.id] = stores.get(x.id, 0) + 1
+    parents = {}
+    for p_ in ast.walk(fn):
+        for c_ in ast.iter_child_nodes(p_):
+            parents[id(c_)] = p_
+    count = 0
+    for n in list(ast.walk(fn)):
+        if not (isinstance(n, ast.Assign) and len(n.targets) == 1 and isinstance(n.targets[0], ast.Name) and stores.get(n.targets[0].id) == 1
+                and isinstance(n.value, ast.Lambda)):
+            continue
+        lam = n.value
+        a = lam.args
+        if a.vararg or a.kwarg or a.kwonlyargs or a.defaults or a.posonlyargs:
+            continue
+        if any(isinstance(y, (ast.Lambda, ast.ListComp, ast.SetComp, ast.DictComp, ast.GeneratorExp, ast.NamedExpr)) for y in ast.walk(lam.body)):
+            continue
+        ps = [x.arg for x in a.args]
+        free = {y.id for y in ast.walk(lam.body) if isinstance(y, ast.Name)} - set(ps)
+        if any(stores.get(f_, 0) > 0 for f_ in free):
+            continue
+        name = n.targets[0].id
+        uses = [x for x in ast.walk(fn) if isinstance(x, ast.Name) and x.id == name and isinstance(x.ctx, ast.Load)]
+        calls = []
+        for u in uses:
+            par = parents.get(id(u))
+            if isinstance(par, ast.Call) and par.func is u and not par.keywords and len(par.args) == len(ps) and all(_pure_simple(x) for x in par.args):
+                calls.append(par)
+            else:
+                calls = None
+                break
+        if not calls:
+            continue
+        repl = {}
+        for c in calls:
+            m = dict(zip(ps, c.args))
+
+            class S(ast.NodeTransformer):
+                def visit_Name(self, x, m=m):
+                    if isinstance(x.ctx, ast.Load) and x.id in m:
+                        return ast.copy_location(copy.deepcopy(m[x.id]), x)
+                    return x
+            repl[id(c)] = S().visit(copy.deepcopy(lam.body))
+
+        class R(ast.NodeTransformer):
+            def visit(self, node):
+                if id(node) in repl:
+                    return ast.copy_location(repl[id(node)], node)
+                return super().visit(node)
+        R().visit(fn)
+        count += 1
+    if count:
+        ast.fix_missing_locations(fn)
+    return count
 
 
 def _hoist_fresh_containers_in_tables(fn):
@@ -3914,6 +4300,7 @@ def normalize(tree):
             node.body = _split_simple_statements(node.body)       # statement forms only; kernels are otherwise read by the walker
         if isinstance(node, ast.FunctionDef) and not _is_njit(node):
             node.body = _split_simple_statements(node.body)
+            _expand_filtered_tables(node)
             _hoist_fresh_containers_in_tables(node)
             _drop_bool_flags(node)
             _unswitch_loops(node)
@@ -3956,6 +4343,9 @@ def normalize(tree):
                 _FoldDisplays().visit(node)
                 _static_expand(node, consts)
                 _PruneConstantIfs().visit(node)          # `if owns:` with the row's literal substituted
+                if _fold_local_const_dicts(node) + _beta_reduce_local_lambdas(node):
+                    _static_expand(node, consts)             # getattr(self, 'lit') exposed by a reduced lambda
+                    _FoldDisplays().visit(node)
                 _drop_dead_pure_stores(node)
     # a private helper whose every use was inlined is dead for the analysis: its body is judged where it now runs
     dropped = set()
